@@ -237,6 +237,8 @@ def rule_helper_contract(ctx, rep):
     ok = False
     for c in ctor:
         a = next((k.value for k in c.keywords if k.arg == "args"), None)
+        if isinstance(a, ast.Name):
+            a = ctx.resolver(uc).expand(a)  # `call_args = replacement or node.args` bound first
         alts = []
         if isinstance(a, ast.IfExp):
             alts = [a.body, a.orelse]
